@@ -18,7 +18,10 @@ RULE = ("every case drives the real MockExecution (one clone per worker task) ag
         "tiers) are LONG BURSTS on a big channel (capacity 128 / 129 / 200 / 256 = builder.rs:96, 64 .. capacity/2+20 accepted orders, one subscriber polled "
         "only when 128 .. capacity+40 notifications are waiting - all of them in ONE poll, or Lagged beyond the capacity -, one that keeps up, one polled at "
         "the end); 3 % of the cases start with the client clock within 120 ms of chrono's largest DateTime<Utc> (8210266876799999 ms) so that "
-        "update_time_exchange's `checked_add_signed(latency/2).unwrap_or(time_request)` falls back to the request time. A `clock` / `trades since` value "
+        "update_time_exchange's `checked_add_signed(latency/2).unwrap_or(time_request)` falls back to the request time. CONFIGURATION-SHAPE family (a fifth as many random cases again, own PRNG stream, ids cfg<n>): a `shape <m|b|k> <tok>*k` op directly after `cfg` makes the mock stand for "
+        "Mock / BinanceSpot / Kraken (config, snapshot, instruments, client, request keys, configured orders; every exchange id that comes back is compared with it) and hands MockExchange::new "
+        "spot / perpetual / future / option instruments (contract size 1 / 10 / 0.01, settlement asset = quote / base / third / one without balance, in-kind quoting, an InstrumentSpec with large "
+        "minima); 8 % of them have an account without any balance. The model checks the op's syntax and ignores its content. A `clock` / `trades since` value "
         "outside chrono's range [-8334601228800000, 8210266876799999] ms is no DateTime<Utc>: not an input, `bad-op` on both sides. 24 committed corpus cases "
         "(corpus/C08C: A1_edges 10, A2_review 14 from the theorem review - the clock fallback at the end of the range with fills / configured orders / trade "
         "queries, latency/2 alone past the range, the range ends, capacity 256 with 129 / 130 / exactly 256 / 258 notifications behind, capacity 200 and 129 "
